@@ -2,6 +2,8 @@ import Solvor.Path.Lemmas
 import Solvor.Path.BellmanFord
 import Solvor.Path.Search
 import Solvor.Path.Sqrt2
+import Solvor.Path.HSearch
+import Solvor.Path.Dijkstra
 /-!
 Path: the property theorems of C11 (helper lemmas are in `Lemmas.lean`, `BellmanFord.lean`,
 `Search.lean`).
@@ -396,5 +398,69 @@ theorem grid_withinTol_iff (cost : Rat) (opt : Z2) (scale : Nat) (tol : Rat) (hs
 
 example : withinTol ((3414213562373095 : Rat) / 1000000000000000) ⟨2, 1⟩ 1 ((1 : Rat) / 1000000000) = true ∧
     withinTol ((3414 : Rat) / 1000) ⟨2, 1⟩ 1 ((1 : Rat) / 1000000000) = false := by decide +kernel
+
+/-! ## T-model: Dijkstra and A* (`solvor/dijkstra.py`, `solvor/a_star.py`), the ∀-input part -/
+
+/-- C11 `dijkstra_sound_any_weights` (∀-input, no hypothesis on the weights): whatever the weights (even
+negative), goal set, `max_iter` and `max_cost`, if the mirror of `dijkstra` answers OPTIMAL then it returns a path and
+a cost accepted by `pathOK` — the path starts at `s`, ends at a goal node, uses existing edges and its
+weights sum to the reported cost (`reconstruct_path` terminates within `n + 1` steps) — and if it
+answers INFEASIBLE without `max_cost` then no goal node is reachable. -/
+theorem dijkstra_sound_any_weights (n : Nat) (E : List (Edge Int)) (s : Nat) (T : List Nat) (maxIter : Nat)
+    (maxCost : Option Int) (hs : s < n) (hE : ∀ e ∈ E, e.2.1 < n) :
+    ((dijkstra n E s T maxIter maxCost).status = .OPTIMAL →
+      ∃ p c, (dijkstra n E s T maxIter maxCost).path = some p ∧ (dijkstra n E s T maxIter maxCost).cost = some c ∧
+        pathOK E s T p c = true) ∧
+    ((dijkstra n E s T maxIter maxCost).status = .INFEASIBLE → maxCost = none → ∀ t ∈ T, ¬ Reach E s t) :=
+  hsearch_sound (fun g _ => g) T maxIter maxCost .OPTIMAL ⟨by decide, by decide⟩ hs hE
+
+example : (dijkstra 4 [(0, 1, 1), (0, 2, 6), (1, 3, 100), (2, 3, 1)] 0 [3] 100 none).status = .OPTIMAL ∧
+    (dijkstra 4 [(0, 1, 1), (0, 2, 6), (1, 3, 100), (2, 3, 1)] 0 [3] 100 none).path = some [0, 2, 3] ∧
+    (dijkstra 4 [(0, 1, 1), (0, 2, 6), (1, 3, 100), (2, 3, 1)] 0 [3] 100 (some 5)).status = .INFEASIBLE := by
+  decide
+
+/-- C11 `dijkstra_certifies` [S].  For non-negative weights, every goal set, `max_iter` and `max_cost`:
+* if the mirror of `dijkstra` answers OPTIMAL, its path and cost together with the capped `g` map
+  `astarPot n g [] cost` pass the verified checker `distCert` — so (by `dist_exact_cert`) the reported
+  cost is the exact least distance from `s` to the goal set and the path is a real path of that weight;
+* if it answers INFEASIBLE, no goal node is reachable (no `max_cost`), respectively every walk from `s` to
+  a goal node weighs more than `max_cost`. -/
+theorem dijkstra_certifies (n : Nat) (E : List (Edge Int)) (s : Nat) (T : List Nat) (maxIter : Nat)
+    (maxCost : Option Int) (hs : s < n) (hE : ∀ e ∈ E, e.2.1 < n) (hW : ∀ e ∈ E, 0 ≤ e.2.2) :
+    ((dijkstra n E s T maxIter maxCost).status = .OPTIMAL →
+      ∃ p c, (dijkstra n E s T maxIter maxCost).path = some p ∧ (dijkstra n E s T maxIter maxCost).cost = some c ∧
+        distCert E s T (astarPot n (dijkstra n E s T maxIter maxCost).g [] c) p c = true ∧
+        IsGoalDist E s T c) ∧
+    ((dijkstra n E s T maxIter maxCost).status = .INFEASIBLE →
+      ∀ t ∈ T, ∀ c, Walk E s t c → match maxCost with | none => False | some m => m < c) := by
+  obtain ⟨h1, h2⟩ := dijkstra_cert (E := E) T maxIter maxCost hs hE hW
+  refine ⟨fun hst => ?_, h2⟩
+  obtain ⟨p, c, hp, hc, hcert⟩ := h1 hst
+  exact ⟨p, c, hp, hc, hcert, (dist_exact_cert hcert).1⟩
+
+example : (dijkstra 4 [(0, 1, 1), (0, 2, 6), (1, 3, 100), (2, 3, 1), (3, 3, 0)] 0 [3] 100 none).status = .OPTIMAL ∧
+    (dijkstra 4 [(0, 1, 1), (0, 2, 6), (1, 3, 100), (2, 3, 1), (3, 3, 0)] 0 [3] 100 none).cost = some 7 ∧
+    (∀ e ∈ [((0 : Nat), (1 : Nat), (1 : Int)), (0, 2, 6), (1, 3, 100), (2, 3, 1), (3, 3, 0)], e.2.1 < 4 ∧ 0 ≤ e.2.2) := by
+  decide
+
+-- FULL STATEMENT (not proved): astar_certifies — as `dijkstra_certifies` for
+--   `astar n E s T h 1 1 maxIter maxCost` under `∀ (u, v, w) ∈ E, 0 ≤ w ∧ h u ≤ w + h v`, `h t = 0` on goals
+--   (consistent heuristic), with the potential `astarPot n r.g h c`.
+/-- C11 `astar_certifies_partial` ([S], ∀-input part): for **every** heuristic table (consistent or
+not), every heuristic weight `wnum / wden`, `max_iter` and `max_cost`: a path returned by the mirror of
+`astar` (status OPTIMAL for weight 1, FEASIBLE otherwise) is accepted by `pathOK` with the reported
+cost, and INFEASIBLE without `max_cost` means that no goal node is reachable. -/
+theorem astar_certifies_partial (n : Nat) (E : List (Edge Int)) (s : Nat) (T : List Nat) (h : List Int)
+    (wnum wden : Int) (maxIter : Nat) (maxCost : Option Int) (hs : s < n) (hE : ∀ e ∈ E, e.2.1 < n) :
+    ((astar n E s T h wnum wden maxIter maxCost).status = (if wnum = wden then Status.OPTIMAL else Status.FEASIBLE) →
+      ∃ p c, (astar n E s T h wnum wden maxIter maxCost).path = some p ∧
+        (astar n E s T h wnum wden maxIter maxCost).cost = some c ∧ pathOK E s T p c = true) ∧
+    ((astar n E s T h wnum wden maxIter maxCost).status = .INFEASIBLE → maxCost = none → ∀ t ∈ T, ¬ Reach E s t) :=
+  hsearch_sound (fun g v => wden * g + wnum * h.getD v 0) T maxIter maxCost
+    (if wnum = wden then Status.OPTIMAL else Status.FEASIBLE) ⟨by split <;> decide, by split <;> decide⟩ hs hE
+
+example : (astar 4 [(0, 1, 1), (0, 2, 6), (1, 3, 100), (2, 3, 1)] 0 [3] [7, 100, 1, 0] 1 1 100 none).path = some [0, 2, 3] ∧
+    (astar 4 [(0, 1, 1), (0, 2, 6), (1, 3, 100), (2, 3, 1)] 0 [3] [0, 0, 50, 0] 2 1 100 none).status = .FEASIBLE := by
+  decide
 
 end Solvor.Path
